@@ -23,8 +23,12 @@ checks = {
          "operator tables are enumerated; mixed associativity at one level excluded as undocumented"),
  "C09": ("generated parse()/_recover()/_makeError() on symbolic token sequences including lexer ERROR tokens over 12 @error placements (n<=4 / n<=6): step-budget overruns are termination candidates (replayed natively), no panic, non-sentences never accepted silently, first delivered Error carries the first non-viable token (viable-prefix recogniser over the reference CNF), recovered trees are derivation trees with @error stretches.",
          "corpus grammars; budget 3M SSA steps per path"),
+ "C10": ("kernel checks over arbitrary table contents: (1) the real table[int32|uint32].AddRow/Array/rowKey with symbolic cells and hole patterns — decoding Array() by the documented layout returns exactly the rows, missing indices are -1, index cells stay inside, shared rows are equal (varint keys compared by the solver); (2) the generated _Find on an arbitrary well-formed table, row and key; (3) two steps of the generated PushRune on an arbitrary sorted-disjoint row with symbolic bounds, targets and non-greedy flag (binary search, accept after consumption, no empty match). Together with the per-item differentials of C01/C02/C07 (tables emitted for corpus specs behave as the rules for all inputs within bounds).",
+         "table shapes bounded (<=3 rows x 2 cells quick; the whole-language product construction of DESIGN 4/C10 part 4 is not built: equivalence over all strings is claimed only up to the input bounds of C01/C02)"),
  "C15": ("rang3 Contains/Intersects/Touches/Compare/Flatten/Subtract/Normalize (with container/heap, slices.SortFunc, stack) executed on arbitrary ranges 0<=B<=E<=U+10FFFF and an arbitrary probe code point: set-theoretic membership, sortedness, exact-union and pairwise-disjointness assertions decided for all values. k<=3 (Flatten), 2x2 (Subtract), k<=2 (Normalize) quick; 4, 3x3, 3 thorough.",
          "sort.Slice modelled as insertion sort calling the real less; list lengths bounded"),
+ "C19": ("_TokenToString executed on a symbolic int for 8 numbering items (modes, @external, @emit-only tokens, two files, tokens the parser never mentions): name of terminal t for every declared constant, \"???\" for every other int value; EOF=0, ERROR=1 and dense declaration order are read back from the generated constants (concrete precondition); the lexer and parser differentials on the same items refer to token kinds only through the generated constants' names, so a table keyed by other numbers shows up as a mismatch.",
+         "numbering itself is a concrete read-back, not solver-decided"),
  "C16": ("the _onBounds variant of every language-corpus grammar: the exact sequence of _onBounds calls (result identity, first/last token, position relative to the actions) is derived from the checked derivation tree and compared on every accepting path; n<=5 / n<=8.",
          "x*! items excluded (span of dropped elements undocumented); twin equality follows from both variants passing the same unique-tree check"),
 }
@@ -32,7 +36,7 @@ checks = {
 not_applicable = {
  "C14": "byte-for-byte comparison of one concrete computation with files on disk; no input a solver could range over (DESIGN.md section 5)",
 }
-pending = ["C04","C06","C10","C12","C13","C17","C18","C19"]
+pending = ["C04","C06","C12","C13","C17","C18"]
 
 def main():
     m = {
